@@ -32,7 +32,8 @@ class C03(Harness):
     def bounds(self, tier):
         return {'depth': {'ordering': 3 if tier == 'quick' else 4, 'filtering': 2 if tier == 'quick' else 3,
                           'cascade': 3 if tier == 'quick' else 4, 'slot': 3 if tier == 'quick' else 4, 'class': 3 if tier == 'quick' else 4,
-                          'oneshot': 3 if tier == 'quick' else 4},
+                          'oneshot': 3 if tier == 'quick' else 4,
+                          'subclass': 3 if tier == 'quick' else 4},
                 'configs': len(self.configs(tier)), 'equality_domain': NVALS}
 
     def configs(self, tier):
@@ -73,6 +74,13 @@ class C03(Harness):
                      W(1, ['a', 'b'], target='cls', precedence=precs[1]),
                      W(2, ['n'], target='cls', what='bounds', onlychanged=False)]
             out.append({'slice': 'class', 'specs': specs})
+        # 7 a subclass with its own copies of the Parameters: watchers registered on the base class and on the subclass afterwards
+        #   belong to different Parameters (an assignment on one level calls that level's watchers only)
+        for precs in itertools.product((0, 1), repeat=2):
+            specs = [W(0, ['a'], target='cls', precedence=precs[0], onlychanged=False),
+                     W(1, ['a', 'b'], target='sub', precedence=precs[1], onlychanged=False),
+                     W(2, ['b'], target='cls')]
+            out.append({'slice': 'subclass', 'specs': specs})
         return out
 
     def depth(self, tier, cfg):
@@ -103,12 +111,14 @@ class C03(Harness):
         elif s == 'slot':
             ops = [['slot', 'n', 'bounds', B1], ['slot', 'n', 'bounds', B2], ['set', 'n', 2], ['set', 'n', 1],
                    ['unwatch', 1] if [w for w in world.model.W if w['id'] == 'w1'][0]['active'] else ['watch', 1]]
+        elif s == 'subclass':
+            ops = [['cset', 'a', 1], ['cset', 'a', 2], ['cset', 'b', 1], ['sset', 'a', 1], ['sset', 'a', 2], ['sset', 'b', 2]]
         elif s == 'class':
             ops = [['cset', 'a', 1], ['cset', 'a', 2], ['cset', 'b', 1], ['slot', 'n', 'bounds', B1, 'cls'], ['slot', 'n', 'bounds', B2, 'cls']]
         return ops
 
     def execute(self, cfg, history):
-        world = World(cfg['specs'], event=False, readback='cls' if cfg['slice'] == 'class' else 'inst')
+        world = World(cfg['specs'], event=False, readback='cls' if cfg['slice'] in ('class', 'subclass') else 'inst')
         vs = []
         for i, op in enumerate(history):
             last = i == len(history) - 1
@@ -121,7 +131,7 @@ class C03(Harness):
                 break
         hits = dict(world.model.hits)
         del world.log[:]
-        fp = try_fingerprint([('cls', world.cls), ('o', world.o)], extra=world.model.canon())
+        fp = try_fingerprint([('cls', world.cls), ('o', world.o)] + ([('sub', world.sub)] if world.sub is not None else []), extra=world.model.canon())
         nxt = [] if vs else self.enabled(cfg, world)
         outcome = repr(world.model.canon()[0:3])
         return Result(vs, fp=fp, next_ops=nxt, outcome=outcome, hits=hits)
